@@ -1023,6 +1023,51 @@ func parseLayers(j judge, tier string) []Layer {
 				},
 			})
 		}
+		// C5b/C7b: the same two cancellations with binary exponents of tens of thousands (the exact power of two
+		// has 10^4 digits and more: size estimates for that temporary, long conversions)
+		{
+			type big2 struct {
+				neg bool // negative exponent cancelling zero digits (C5) / positive exponent on a multiple of 5^k (C7)
+				k   int
+			}
+			var us []big2
+			for _, k := range []int{2100, 8340, 8360, 16690, 17500, 33400} {
+				us = append(us, big2{true, k})
+			}
+			for _, k := range []int{8000, 33300, 33500, 66800, 70000} {
+				us = append(us, big2{false, k})
+			}
+			layers = append(layers, Layer{
+				Name:   "C5b-C7b-cancellation-with-huge-binary-exponents",
+				Units:  len(us),
+				Bounds: "hex literals (head in {1, 3, a8})(k zero digits) p(−4k+e) for k in {2100, 8340, 8360, 16690, 17500, 33400}, and (h·5^k in hex) p(k+e) for h in {1, 7}, k in {8000, 33300, 33500, 66800, 70000}; e in {−9, −4, 0, 4}; precision {7, 34}; modes Even/ToZero/AwayFromZero: exact when representable, else within 1 ulp",
+				Run: func(c *Ctx, u int) {
+					var lits []string
+					if us[u].neg {
+						for _, h := range []string{"1", "3", "a8"} {
+							for _, e := range []int{-9, -4, 0, 4} {
+								lits = append(lits, "0x"+h+strings.Repeat("0", us[u].k)+"p"+strconv.Itoa(-4*us[u].k+e))
+							}
+						}
+					} else {
+						for _, h := range []int64{1, 7} {
+							mant := new(big.Int).Exp(big.NewInt(5), big.NewInt(int64(us[u].k)), nil)
+							mant.Mul(mant, big.NewInt(h))
+							for _, e := range []int{-9, -4, 0, 4} {
+								lits = append(lits, "0x"+mant.Text(16)+"p"+strconv.Itoa(us[u].k+e))
+							}
+						}
+					}
+					for _, lit := range lits {
+						for _, p := range []uint32{7, 34} {
+							for _, md := range []uint8{ToNearestEven, ToZero, AwayFromZero} {
+								parseCase(c, j, lit, 0, p, md, false)
+							}
+						}
+					}
+				},
+			})
+		}
 		// C7: mantissas that are (small number)·5^k with a positive binary exponent near k: the value is
 		// (small number)·10^k·2^e, a short decimal although mantissa and power of two are long
 		{
